@@ -208,7 +208,7 @@ def run_once(sc, chooser, targets, wired=False, max_steps=4000):
     for i in range(nsrc):
         c.spawn(producer(i, sc["progs"][i]))
     for _ in range(sc.get("timers", 0)):
-        c.spawn(lambda: k3x.worker_loop(w, w.sched))
+        c.spawn(lambda: k3x.worker_loop(w, w.sched, max_actions=sc.get("params", {}).get("ticks", 2)))
     c.run(chooser)
     w.ctl = None
     w.pre = pre
